@@ -164,6 +164,11 @@ impl Ctx {
     pub fn rng(&self, stream: u64) -> Rng {
         Rng::derive(self.seed, stream)
     }
+    /// Factor for wall-clock caps of workloads (env VH_WALL_SCALE, default 1): bin/coverage runs instrumented binaries that
+    /// are 5–70x slower and must still get through the whole quick plan.
+    pub fn wall_scale() -> f64 {
+        std::env::var("VH_WALL_SCALE").ok().and_then(|s| s.parse::<f64>().ok()).filter(|f| *f >= 1.0).unwrap_or(1.0)
+    }
     pub fn elapsed_s(&self) -> f64 {
         self.start.elapsed().as_secs_f64()
     }
